@@ -85,6 +85,7 @@ type UnsupportedErr struct{ Msg string }
 func (e UnsupportedErr) Error() string { return e.Msg }
 
 type FnGen struct {
+	varargs map[string]map[string]string // temp arrays of variadic calls (ssa Alloc "varargs"): ref -> index -> stored value
 	inst map[string]int64 // instantiation constants (contract clause `instantiate`)
 	prog     *Prog
 	fn       *ssa.Function
